@@ -28,6 +28,7 @@ import (
 	"runtime"
 	"runtime/debug"
 	"sort"
+	"testing/iotest"
 
 	vegeta "github.com/tsenart/vegeta/v12/lib"
 	"verifharness/internal/ev"
@@ -123,7 +124,18 @@ func c09CheckCut(codec string, data []byte, ends []int, recs []vegeta.Result, cu
 	if want < 0 {
 		want = c09Complete(ends, cut)
 	}
-	dec := codecNewDecoder(codec, bytes.NewReader(data[:cut:cut]))
+	// what is left of the file reaches the decoder through readers with different but legal manners:
+	// all at once then EOF, the last bytes together with EOF, or a byte at a time
+	var src io.Reader = bytes.NewReader(data[:cut:cut])
+	switch cut % 5 {
+	case 1:
+		src = iotest.DataErrReader(src)
+	case 3:
+		if cut <= 4096 {
+			src = iotest.OneByteReader(src)
+		}
+	}
+	dec := codecNewDecoder(codec, src)
 	out, last, pan := codecDecodeAll(dec, len(recs)+2)
 	if pan != nil {
 		return "panic", fmt.Sprintf("Decode panicked after %d records: %v", len(out), pan), len(out), nil, nil, nil
@@ -545,9 +557,11 @@ func runC09(c *Ctx) int {
 		run.Floor("per_call_checks/"+codec, int64(nStreams)*2)
 	}
 	c09AttackKill(c, run)
+	c09Pump(c, run)
 	c09Fault(c, run)
 	c09EncodeFault(c, run)
 	run.Floor("attack_kill_runs", int64(c.Pick(3, 6)))
+	run.Floor("pump_runs", 3)
 	run.Floor("cli_cut_runs/gob", int64(nCLI)/3)
 	run.Floor("cli_cut_runs/json", int64(nCLI)/3)
 	run.FloorDistinct(c.Pick(600, 15000))
